@@ -192,9 +192,9 @@ func (g *c05Gen) props() []c05Prop {
 		case 0:
 			ps = append(ps, c05Prop{name: n, kind: "static", text: Pick(g.r, []string{"lit-" + n, "", "7", "x y"})})
 		case 1:
-			ps = append(ps, c05Prop{name: n, kind: "interp", pre: Pick(g.r, []string{"", "p-"}), path: Pick(g.r, []string{"a", "b", "n1", "zz", "m.k"}), post: Pick(g.r, []string{"", "-q"})})
+			ps = append(ps, c05Prop{name: n, kind: "interp", pre: Pick(g.r, []string{"", "p-"}), path: Pick(g.r, []string{"a", "b", "n1", "zz", "m.k", "pad", "pad"}), post: Pick(g.r, []string{"", "-q"})})
 		case 2, 3:
-			ps = append(ps, c05Prop{name: n, kind: "bound", path: Pick(g.r, []string{"a", "b", "c", "n0", "n1", "flag", "off", "list", "obj", "zz", "obj.k", "list.0"})})
+			ps = append(ps, c05Prop{name: n, kind: "bound", path: Pick(g.r, []string{"a", "b", "c", "pad", "n0", "n1", "flag", "off", "list", "obj", "zz", "obj.k", "list.0"})})
 		}
 	}
 	return ps
@@ -292,7 +292,7 @@ func runC05(r *Run) {
 			}
 		}
 		data := VMap(KV{K: "a", V: VStr("outer-a")}, KV{K: "b", V: VStr("outer-b")}, KV{K: "n0", V: VInt("int", 0)}, KV{K: "n1", V: VInt("int", 1)},
-			KV{K: "flag", V: VBool(true)}, KV{K: "off", V: VBool(false)}, KV{K: "list", V: VList("", VStr("l0"), VStr("l1"))},
+			KV{K: "pad", V: VStr("  pad\t")}, KV{K: "flag", V: VBool(true)}, KV{K: "off", V: VBool(false)}, KV{K: "list", V: VList("", VStr("l0"), VStr("l1"))},
 			KV{K: "obj", V: VMap(KV{K: "k", V: VStr("obj-k")}, KV{K: "on", V: VBool(true)})},
 			KV{K: "m", V: VMap(KV{K: "k", V: VStr("outer-m-k")})}).Normalize()
 		mfs := fstest.MapFS{}
